@@ -8,6 +8,7 @@ verus! {
 //@include common/pbf_spec.vrs
 //@include common/pbf_blob.vrs
 //@include common/pbf_writer.vrs
+//@include common/compression.vrs
 
 #[derive(Clone, Copy, PartialEq, Eq, Debug, Structural)]
 //@extract struct file="versatiles_core/src/types/byte_range.rs" name="ByteRange"
@@ -106,6 +107,213 @@ impl<'a> EntriesSliceV3<'a> {
 //@loop 4 iter=it4
 			invariant entries@ == s, ranges_ok(s), writer.sink.buf@ == b0 + col_ids(s, s.len() as int) + col_runs(s, s.len() as int) + col_lens(s, s.len() as int) + col_offs(s, it4.index@ as int),
 //@end
+}
+
+impl ByteRange {
+//@extract fn file="versatiles_core/src/types/byte_range.rs" scope="impl ByteRange" name="new"
+//@ret r
+//@spec
+		ensures r.offset == offset, r.length == length
+//@end
+}
+impl EntryV3 {
+//@extract fn file="versatiles_container/src/container/pmtiles/types/entry_v3.rs" scope="impl EntryV3" name="new"
+//@ret r
+//@spec
+		ensures r.tile_id == tile_id, r.range == range, r.run_length == run_length
+//@end
+}
+impl EntriesV3 {
+//@extract fn file="versatiles_container/src/container/pmtiles/types/entries_v3.rs" scope="impl EntriesV3" name="new"
+//@ret r
+//@spec
+		ensures r.entries@.len() == 0
+//@end
+//@extract fn file="versatiles_container/src/container/pmtiles/types/entries_v3.rs" scope="impl EntriesV3" name="push"
+//@spec
+		ensures final(self).entries@ == old(self).entries@.push(entry)
+//@end
+//@extract fn file="versatiles_container/src/container/pmtiles/types/entries_v3.rs" scope="impl EntriesV3" name="as_slice"
+//@ret r
+//@spec
+		ensures r.entries@ == self.entries@
+//@end
+}
+impl<'a> EntriesSliceV3<'a> {
+	// R7 stand-in for `self.slice(idx..end)` = `&self.entries[idx..end]` (std range indexing)
+	#[verifier::external_body]
+	pub fn slice_range(&self, a: usize, b: usize) -> (r: EntriesSliceV3<'_>)
+		requires a <= b <= self.entries@.len()
+		ensures r.entries@ == self.entries@.subrange(a as int, b as int)
+	{ unimplemented!() }
+//@extract fn file="versatiles_container/src/container/pmtiles/types/entries_v3.rs" scope="impl EntriesSliceV3<'_>" name="get"
+//@rewrite "self.entries.get(index).unwrap()" => "&self.entries[index]" R7
+//@ret r
+//@spec
+		requires index < self.entries@.len()
+		ensures *r == self.entries@[index as int]
+//@end
+}
+//@extract struct file="versatiles_container/src/container/pmtiles/types/directory_v3.rs" name="Directory"
+//@end
+
+// leaf j of a directory split into leaves of `l` entries: the entries j*l .. min((j+1)*l, n)
+pub open spec fn leaf_of(s: Seq<EntryV3>, l: int, j: int) -> Seq<EntryV3> {
+	s.subrange(j * l, if (j + 1) * l <= s.len() { (j + 1) * l } else { s.len() as int }) }
+// statement (PMTiles v3 spec, leaf directories): the root holds one leaf pointer (run_length 0) per leaf, carrying the leaf's
+// first tile id and the byte range of the leaf's serialized directory inside the leaf section; the leaves tile the sorted
+// entry list without gap or overlap
+#[verifier::opaque]
+pub open spec fn root_points_to_leaves(s: Seq<EntryV3>, l: int, roots: Seq<EntryV3>, leaves: Seq<u8>, c: TileCompression, k: int) -> bool {
+	roots.len() == k && forall|j: int| 0 <= j < k ==> {
+		let e = #[trigger] roots[j];
+		e.run_length == 0 && e.tile_id == s[j * l].tile_id && e.range.offset + e.range.length <= leaves.len()
+		&& decode(c, leaves.subrange(e.range.offset as int, e.range.offset + e.range.length)) == Some(directory_bytes(leaf_of(s, l, j)))
+		&& (j > 0 ==> e.range.offset == roots[j - 1].range.offset + roots[j - 1].range.length) && (j == 0 ==> e.range.offset == 0) }
+}
+
+//@extract fn file="versatiles_container/src/container/pmtiles/types/entries_v3.rs" scope="impl EntriesV3" name="build_roots_leaves" anydepth="1"
+//@rewrite "entries.slice(idx..end)" => "entries.slice_range(idx, end)" R7
+//@rewrite "leaves_bytes.write_all(serialized.as_slice())?;" => "vec_extend(&mut leaves_bytes, &serialized.v);" R7
+//@rewrite "Blob::from(leaves_bytes)" => "Blob::from_vec(leaves_bytes)" R7
+//@ret r
+//@spec
+	requires sorted(entries.entries@), ranges_ok(entries.entries@), 0 < leaf_size <= 0x1000_0000_0000, entries.entries@.len() <= 0x1000_0000_0000
+	ensures r is Ok ==> exists|roots: Seq<EntryV3>| #![trigger directory_bytes(roots)]
+			root_points_to_leaves(entries.entries@, leaf_size as int, roots, r.unwrap().leaves_bytes@, *compression, (entries.entries@.len() + leaf_size - 1) / (leaf_size as int))
+			&& decode(*compression, r.unwrap().root_bytes@) == Some(directory_bytes(roots)),
+//@at "let mut idx: usize = 0;"
+	let ghost s = entries.entries@;
+	let ghost l = leaf_size as int;
+//@loop 1
+		invariant entries.entries@ == s, l == leaf_size, 0 < l <= 0x1000_0000_0000, s.len() <= 0x1000_0000_0000, sorted(s), ranges_ok(s),
+			idx % leaf_size == 0, idx < s.len() + l, idx == 0 || idx - l < s.len(),
+			leaves_bytes@.len() <= 0x7fff_ffff_ffff_ffff,
+			root_points_to_leaves(s, l, root_entries.entries@, leaves_bytes@, *compression, idx as int / l), root_entries.entries@.len() == idx as int / l,
+			root_entries.entries@.len() > 0 ==> leaves_bytes@.len() == root_entries.entries@.last().range.offset + root_entries.entries@.last().range.length,
+			root_entries.entries@.len() == 0 ==> leaves_bytes@.len() == 0,
+		decreases s.len() + l - idx
+//@at "while idx < entries.len()"
+	proof { lemma_rpl_empty(s, l, root_entries.entries@, leaves_bytes@, *compression); }
+//@loopstart 1
+		let ghost j = idx as int / l;
+		let ghost roots0 = root_entries.entries@;
+		let ghost leaves0 = leaves_bytes@;
+		proof { lemma_mul_div(idx as int, l); }
+//@after "let serialized = compress(entries.slice_range(idx, end).serialize_entries()?, compression)?;"
+		proof {
+			lemma_mul_div(idx as int, l);
+			assert((j + 1) * l == j * l + l) by (nonlinear_arith);
+			assert(entries.entries@.subrange(idx as int, end as int) =~= leaf_of(s, l, j));
+		}
+//@loopend 1
+		proof {
+			vec_len_bound(&leaves_bytes);
+			lemma_mul_div_next(idx as int - l, l);
+			lemma_rpl_step(s, l, roots0, leaves0, *compression, j, root_entries.entries@, leaves_bytes@, serialized@);
+		}
+//@at "let root_bytes = compress"
+	proof {
+		let roots = root_entries.entries@;
+		lemma_mul_div(idx as int, l);
+		let m = idx as int / l;
+		assert((m - 1) * l == m * l - l) by (nonlinear_arith);
+		assert(roots.len() == m);
+		lemma_roots_sorted(s, l, roots, leaves_bytes@, *compression);
+		lemma_ceil_div(s.len() as int, l, idx as int / l);
+	}
+//@at "Ok(Directory {"
+	proof {
+		let roots = root_entries.entries@;
+		let k = (s.len() + l - 1) / l;
+		assert(k == idx as int / l);
+		assert(root_points_to_leaves(s, l, roots, leaves_bytes@, *compression, k));
+		assert(decode(*compression, root_bytes@) == Some(directory_bytes(roots)));
+	}
+//@end
+
+pub fn vec_extend(v: &mut Vec<u8>, s: &Vec<u8>) ensures final(v)@ == old(v)@ + s@
+{
+	let ghost pre = v@;
+	let mut i: usize = 0;
+	while i < s.len()
+		invariant i <= s.len(), v@ == pre + s@.subrange(0, i as int),
+		decreases s.len() - i
+	{ v.push(s[i]); i += 1; proof { assert(v@ =~= pre + s@.subrange(0, i as int)); } }
+	proof { assert(s@.subrange(0, s@.len() as int) =~= s@); }
+}
+// trusted: a Vec<u8> never holds more than isize::MAX bytes (std allocation guarantee)
+#[verifier::external_body]
+pub proof fn vec_len_bound(v: &Vec<u8>) ensures v@.len() <= 0x7fff_ffff_ffff_ffff { }
+pub proof fn lemma_ceil_div(n: int, l: int, m: int)
+	requires l > 0, n >= 0, m >= 0, m * l >= n, m == 0 || (m - 1) * l < n
+	ensures (n + l - 1) / l == m
+{
+	if m == 0 { assert(n == 0) by (nonlinear_arith) requires m == 0, m * l >= n, n >= 0; vstd::arithmetic::div_mod::lemma_basic_div(l - 1, l); }
+	else {
+		let r = n + l - 1 - m * l;
+		assert(0 <= r < l) by (nonlinear_arith) requires m * l >= n, (m - 1) * l < n, r == n + l - 1 - m * l, l > 0;
+		assert(n + l - 1 == l * m + r) by (nonlinear_arith) requires r == n + l - 1 - m * l;
+		vstd::arithmetic::div_mod::lemma_fundamental_div_mod_converse(n + l - 1, l, m, r);
+	}
+}
+pub proof fn lemma_mul_div(idx: int, l: int)
+	requires l > 0, idx >= 0, idx % l == 0
+	ensures (idx / l) * l == idx, idx / l >= 0
+{ vstd::arithmetic::div_mod::lemma_fundamental_div_mod(idx, l); vstd::arithmetic::mul::lemma_mul_is_commutative(l, idx / l); vstd::arithmetic::div_mod::lemma_div_pos_is_pos(idx, l); }
+pub proof fn lemma_mul_div_next(idx: int, l: int)
+	requires l > 0, idx >= 0, idx % l == 0
+	ensures (idx + l) % l == 0, (idx + l) / l == idx / l + 1
+{
+	vstd::arithmetic::div_mod::lemma_fundamental_div_mod(idx, l);
+	assert(idx + l == l * (idx / l + 1) + 0) by (nonlinear_arith) requires idx == l * (idx / l) + idx % l, idx % l == 0;
+	vstd::arithmetic::div_mod::lemma_fundamental_div_mod_converse(idx + l, l, idx / l + 1, 0);
+}
+pub proof fn lemma_rpl_empty(s: Seq<EntryV3>, l: int, roots: Seq<EntryV3>, leaves: Seq<u8>, c: TileCompression)
+	requires roots.len() == 0
+	ensures root_points_to_leaves(s, l, roots, leaves, c, 0)
+{ reveal(root_points_to_leaves); }
+// appending the pointer of leaf j (serialized as `ser`) to the root entries and `ser` to the leaf section
+pub proof fn lemma_rpl_step(s: Seq<EntryV3>, l: int, roots0: Seq<EntryV3>, leaves0: Seq<u8>, c: TileCompression, j: int, roots1: Seq<EntryV3>, leaves1: Seq<u8>, ser: Seq<u8>)
+	requires root_points_to_leaves(s, l, roots0, leaves0, c, j), j >= 0,
+		roots0.len() > 0 ==> leaves0.len() == roots0.last().range.offset + roots0.last().range.length,
+		roots0.len() == 0 ==> leaves0.len() == 0,
+		roots1.len() == roots0.len() + 1, roots1 == roots0.push(roots1.last()), leaves1 == leaves0 + ser,
+		roots1.last().run_length == 0, roots1.last().tile_id == s[j * l].tile_id,
+		roots1.last().range.offset == leaves0.len(), roots1.last().range.length == ser.len(),
+		decode(c, ser) == Some(directory_bytes(leaf_of(s, l, j))),
+	ensures root_points_to_leaves(s, l, roots1, leaves1, c, j + 1),
+		leaves1.len() == roots1.last().range.offset + roots1.last().range.length,
+{
+	reveal(root_points_to_leaves);
+	assert forall|i: int| 0 <= i < j + 1 implies ({
+		let e = #[trigger] roots1[i];
+		e.run_length == 0 && e.tile_id == s[i * l].tile_id && e.range.offset + e.range.length <= leaves1.len()
+		&& decode(c, leaves1.subrange(e.range.offset as int, e.range.offset + e.range.length)) == Some(directory_bytes(leaf_of(s, l, i)))
+		&& (i > 0 ==> e.range.offset == roots1[i - 1].range.offset + roots1[i - 1].range.length) && (i == 0 ==> e.range.offset == 0) }) by {
+		if i < j {
+			assert(roots1[i] == roots0[i]);
+			let e = roots0[i];
+			assert(leaves1.subrange(e.range.offset as int, e.range.offset + e.range.length) =~= leaves0.subrange(e.range.offset as int, e.range.offset + e.range.length));
+			if i > 0 { assert(roots1[i - 1] == roots0[i - 1]); }
+		} else {
+			let e = roots1[i];
+			assert(leaves1.subrange(e.range.offset as int, e.range.offset + e.range.length) =~= ser);
+			if i > 0 { assert(roots1[i - 1] == roots0.last()); }
+		}
+	}
+}
+pub proof fn lemma_roots_sorted(s: Seq<EntryV3>, l: int, roots: Seq<EntryV3>, leaves: Seq<u8>, c: TileCompression)
+	requires sorted(s), l > 0, root_points_to_leaves(s, l, roots, leaves, c, roots.len() as int), (roots.len() - 1) * l < s.len() || roots.len() == 0,
+		leaves.len() <= 0x7fff_ffff_ffff_ffff
+	ensures sorted(roots), ranges_ok(roots)
+{
+	reveal(root_points_to_leaves);
+	assert forall|a: int, b: int| 0 <= a <= b < roots.len() implies roots[a].tile_id <= roots[b].tile_id by {
+		assert(a * l <= b * l) by (nonlinear_arith) requires 0 <= a <= b, l > 0;
+		assert(b * l <= (roots.len() - 1) * l) by (nonlinear_arith) requires b <= roots.len() - 1, l > 0;
+		assert(0 <= a * l) by (nonlinear_arith) requires 0 <= a, l > 0;
+	}
 }
 } // verus!
 fn main() {}
